@@ -489,9 +489,12 @@ def gen_settled(rng, idx: int) -> dict:
     module above the threshold while neighbours leak into each other (the INITIAL allocation over-occupies cells).
     What glbfloor returns must nevertheless be feasible: the loop optimises before it may stop."""
     side = rng.choice([1, 1, 2, 1.5])
-    if rng.random() < 0.6:
+    shape = ["wide", "tall", "any", "any"][idx % 4]     # non-square cells exercise x/y mix-ups of the grid code
+    if shape != "any" or rng.random() < 0.6:
         rows, cols = rng.choice([(1, 2), (2, 2), (2, 3), (2, 3), (3, 2), (1, 3), (2, 4), (2, 4), (3, 3), (3, 3), (3, 4)])
-        W, H = cols * side, rows * side
+        sx, sy = {"wide": rng.choice([(1.5, 1), (2, 1), (2, 1.5)]), "tall": rng.choice([(1, 1.5), (1, 2)]),
+                  "any": (side, side)}[shape]
+        W, H = cols * sx, rows * sy
         refine = {"grid": [rows, cols]}
     else:
         a, b, n = rng.choice([(2, 1, 2), (2, 2, 4), (4, 2, 8), (4, 2, 8), (2, 4, 8), (4, 1, 4)])
